@@ -135,8 +135,14 @@ def ConvTable (n : Nat) (c' cb : Cont) : Prop :=
   (if c'.dt = cb.dt then c'.elems = cb.elems else FreshL n c'.elems) ∧
   (if c'.it = cb.it then c'.inds = cb.inds else FreshL n c'.inds)
 
+theorem convertFrom_lt7 {p : Pool} {self other : Cont} {so : Bool} (hk : other.kind < 7) :
+    Cont.convertFrom p self other so = Cont.assign p self other so := by
+  unfold Cont.convertFrom
+  have : ¬ other.kind ≥ 7 := by omega
+  simp only [this, if_false]
+
 theorem step_conv_table {s s' : State} {a b dt it : Nat} {cb : Cont}
-    (h : step s (.conv a b dt it) = .ok s') (hb : s.slot b = some cb) (hab : a ≠ b) :
+    (h : step s (.conv a b dt it) = .ok s') (hb : s.slot b = some cb) (hab : a ≠ b) (hk : cb.kind < 7) :
     ∃ c', s'.slot a = some c' ∧ s'.slot b = some cb ∧ ConvTable s.pool.length c' cb := by
   unfold step at h
   simp only [hb] at h
@@ -152,7 +158,7 @@ theorem step_conv_table {s s' : State} {a b dt it : Nat} {cb : Cont}
         injection h with h; subst h
         refine ⟨c1, slot_setSlot_self _ a _ hc, by rw [slot_setSlot_ne _ a b _ hab]; exact hb, ?_⟩
         have hso : decide (a = b) = false := by simp [hab]
-        rw [hso] at hr
+        rw [hso, convertFrom_lt7 hk] at hr
         obtain ⟨_, st⟩ := sharing_assign hr
         obtain ⟨hf, _, _, se, si⟩ := st rfl
         obtain ⟨td, ti⟩ := assign_types hr
@@ -164,9 +170,42 @@ theorem step_conv_table {s s' : State} {a b dt it : Nat} {cb : Cont}
           · rename_i hd; simp only [hd, if_true]; exact si.1
           · rename_i hd; simp only [hd, if_false]; exact si
 
+/-- the convert row for the sparse vectors (kinds 7, 8): `convert` is a deep copy, nothing is shared -/
+theorem step_conv_sv_table {s s' : State} {a b dt it : Nat} {cb : Cont}
+    (h : step s (.conv a b dt it) = .ok s') (hb : s.slot b = some cb) (hk : 7 ≤ cb.kind) :
+    ∃ c', s'.slot a = some c' ∧ c'.foreign = false ∧ FreshL s.pool.length c'.elems ∧ FreshL s.pool.length c'.inds := by
+  unfold step at h
+  simp only [hb] at h
+  split at h
+  · cases h
+  · rename_i hc
+    simp only [decide_eq_true_eq, Nat.not_le] at hc
+    split at h
+    · cases h
+    · split at h
+      · cases h
+      · rename_i p1 c1 hr
+        injection h with h; subst h
+        refine ⟨c1, slot_setSlot_self _ a _ hc, ?_⟩
+        unfold Cont.convertFrom at hr
+        simp only [hk, if_true] at hr
+        unfold Cont.svConvert at hr
+        split at hr
+        · cases hr
+        · have key : CloneTable s.pool.length 3 c1 cb := by
+            split at hr
+            · rename_i hty
+              simp only [Bool.and_eq_true, decide_eq_true_eq] at hty
+              exact cloneTable_same hr hty.1 hty.2
+            · exact cloneTable_cross hr
+          obtain ⟨hf, ki, ke⟩ := key
+          simp only [true_or, if_true] at ki
+          simp only [show ¬ (3 = 0) by omega, if_false] at ke
+          exact ⟨hf, ke, ki⟩
+
 /-- `x.convert(x)` changes nothing at all: same container content, same pool -/
 theorem step_conv_self {s s' : State} {a dt it : Nat} {c : Cont} (h : step s (.conv a a dt it) = .ok s')
-    (hs : s.slot a = some c) : s'.slot a = some c ∧ s'.pool = s.pool := by
+    (hs : s.slot a = some c) (hk : c.kind < 7) : s'.slot a = some c ∧ s'.pool = s.pool := by
   unfold step at h
   simp only [hs] at h
   split at h
@@ -180,7 +219,7 @@ theorem step_conv_self {s s' : State} {a dt it : Nat} {c : Cont} (h : step s (.c
       · rename_i p1 c1 hr
         injection h with h; subst h
         have hso : decide True = true := rfl
-        rw [hso] at hr
+        rw [hso, convertFrom_lt7 hk] at hr
         obtain ⟨st, _⟩ := sharing_assign hr
         obtain ⟨e1, e2⟩ := st rfl
         subst e1
@@ -225,7 +264,7 @@ theorem step_lay_table {s s' : State} {l a : Nat} {ca : Cont}
             ?_, rfl, rfl, hs⟩
           unfold State.setLay State.lay
           simp only
-          rw [List.getElem?_set_self hc.1]; rfl
+          rw [List.getElem?_set_self hc.1.1]; rfl
 
 /-- `M(layout)` / `m = layout`: the matrix shares exactly the layout's index arrays, its data array is fresh -/
 theorem step_mlay_table {s s' : State} {a l kind dt : Nat} {fill : Int} {L : Layout}
